@@ -16,10 +16,6 @@ Fixpoint take_gets (l : list hop) : list hop :=
 Definition obs_den (o : option get_obs) : list (list bytes * N) :=
   match o with None => [] | Some ob => pnz (pnorm (t_den (g_tree ob))) end.
 
-(* per stack: x <= y *)
-Definition den_le (x y : list (list bytes * N)) : bool :=
-  forallb (fun pv => (snd pv <=? pget (fst pv) y)%N) x.
-
 Definition same_query (sel : sid) (f u : Z) (h : hop) : bool :=
   match h with
   | HGet sel' f' u' _ => sid_eqb sel sel' && list_eqb kv_eqb (sid_tags sel) (sid_tags sel') && (f =? f') && (u =? u')
@@ -87,4 +83,4 @@ Fixpoint scan (rev_prefix rest : list hop) : list verdict :=
   end.
 
 Definition check_case (c : case) : verdict :=
-  combine_verdicts (CorrC01.spec_gets [] (c_ops c) ++ scan [] (c_ops c) ++ [model_verdict true false (c_ops c)]).
+  combine_verdicts (CorrC01.spec_gets [] (c_ops c) ++ spec_upper_gets [] (c_ops c) ++ scan [] (c_ops c) ++ [model_verdict true false (c_ops c)]).
